@@ -1,1 +1,6 @@
 import Properties.C02
+#print axioms Hive.C02.runInv
+#print axioms Hive.C02.instructions
+#print axioms Hive.C02.updates
+#print axioms Hive.C02.reachable
+#print axioms Hive.C02.initial
